@@ -1062,7 +1062,7 @@ fn option_sort_key(arg: &Arg) -> (usize, String) {
     //    by arg name).
     // Example order: -a, -b, -B, -s, --select-file, --select-folder, -x
 
-    let key = if let Some(x) = arg.get_short() {
+    let mut key = if let Some(x) = arg.get_short() {
         let mut s = x.to_ascii_lowercase().to_string();
         s.push(if x.is_ascii_lowercase() { '0' } else { '1' });
         s
@@ -1073,6 +1073,10 @@ fn option_sort_key(arg: &Arg) -> (usize, String) {
         s.push_str(arg.get_id().as_str());
         s
     };
+    // Keep the keys of different args distinct (`-a` and `--a0` would both be `a0`) or one of them
+    // gets dropped from the help when they share a display order
+    key.push('\0');
+    key.push_str(arg.get_id().as_str());
     (arg.get_display_order(), key)
 }
 
